@@ -27,6 +27,9 @@ EVID = os.environ.get('VERIF_EVID') or os.path.join(ROOT, 'evidence')   # VERIF_
 REPLAY = os.path.join(EVID, 'replay')
 NCPU = os.cpu_count() or 4
 GUARD = 'MDSORT_VERIF'
+COV_OUT = os.environ.get('VERIF_COV_OUT')     # measurement mode of tools/cov.py: build everything with --coverage
+if COV_OUT:
+    os.environ['VSHIM_OFF_AT_EXIT'] = '1'     # the coverage runtime's exit-time file traffic is not part of any trace
 
 ALLOWED_AXIOMS = {'propext', 'Classical.choice', 'Quot.sound'}
 FORBIDDEN = re.compile(r'\b(sorry|admit|native_decide|bv_decide|implemented_by|unsafe)\b|^\s*axiom\s|maxHeartbeats\s+0')
@@ -35,6 +38,9 @@ SRCS = ['libks/buffer.c', 'compat-arc4random.c', 'compat-errc.c', 'compat-pledge
         'compat-reallocarray.c', 'compat-strlcpy.c', 'compat-utimensat.c', 'compat-warnc.c',
         'conf.c', 'decode.c', 'expr.c', 'fault.c', 'macro.c', 'maildir.c', 'match.c',
         'message.c', 'parse.c', 'time.c', 'util.c', 'libks/vector.c']
+
+
+DEGRADED = []      # ties between model and code that could not be established on this run (see Scratch.unit_harness)
 
 
 class CheckError(Exception):
@@ -63,7 +69,57 @@ class Scratch:
         self._copy()
 
     def cleanup(self):
+        if COV_OUT:
+            try:
+                self._gcov_report()
+            except Exception as e:       # a measurement aid: never turns a check red
+                log('coverage report failed: %r' % (e,))
         shutil.rmtree(self.dir, ignore_errors=True)
+
+    def _gcov_report(self):
+        """VERIF_COV_OUT=<dir>: every harness and the binary were built with --coverage; collect what the
+        run executed, per function of the repository sources (lines, branches, unexecuted lines)."""
+        import gzip
+        funcs = {}
+        odirs = [self.dir, os.path.join(self.dir, 'obj-cov')]
+        gcdas = [g for d in odirs for g in glob.glob(os.path.join(d, '*.gcda'))]
+        wd = os.path.join(self.dir, 'gcov-out')
+        os.makedirs(wd, exist_ok=True)
+        for g in gcdas:
+            r = subprocess.run(['gcov', '-b', '-c', '--json-format', '--stdout', g], cwd=wd, capture_output=True)
+            if r.returncode != 0:
+                continue
+            for doc in r.stdout.decode('latin-1').split('\n'):
+                doc = doc.strip()
+                if not doc.startswith('{'):
+                    continue
+                try:
+                    j = json.loads(doc)
+                except ValueError:
+                    continue
+                for f in j.get('files', []):
+                    fn = os.path.relpath(os.path.normpath(os.path.join(self.src, f['file'])), self.src) if not os.path.isabs(f['file']) else os.path.relpath(f['file'], self.src)
+                    if fn.startswith('..') or not (fn.endswith('.c') or fn.endswith('.y')):
+                        continue
+                    for ln in f.get('lines', []):
+                        key = (fn, ln.get('function_name') or '?')
+                        d = funcs.setdefault(key, {})
+                        e = d.setdefault(ln['line_number'], [0, {}])
+                        e[0] += ln.get('count', 0)
+                        for bi, b in enumerate(ln.get('branches', [])):
+                            e[1][bi] = e[1].get(bi, 0) + b.get('count', 0)
+        out = {}
+        for (fn, fu), lines in sorted(funcs.items()):
+            nb = sum(len(e[1]) for e in lines.values())
+            out['%s:%s' % (fn, fu)] = {
+                'lines': len(lines), 'lines_hit': sum(1 for e in lines.values() if e[0] > 0),
+                'branches': nb, 'branches_hit': sum(1 for e in lines.values() for c in e[1].values() if c > 0),
+                'unexecuted_lines': sorted(l for l, e in lines.items() if e[0] == 0),
+                'untaken_branches': sorted('%d#%d' % (l, bi) for l, e in lines.items() for bi, c in e[1].items() if c == 0 and e[0] > 0),
+            }
+        os.makedirs(COV_OUT, exist_ok=True)
+        with open(os.path.join(COV_OUT, 'cov-%d.json' % os.getpid()), 'w') as fh:
+            json.dump(out, fh)
 
     def _copy(self):
         os.makedirs(self.src)
@@ -97,7 +153,7 @@ class Scratch:
     FLAVOURS = {
         'asan': ['-O1', '-g', '-fsanitize=address,undefined', '-fno-sanitize-recover=all', '-fno-omit-frame-pointer'],
         'plain': ['-O1', '-g'],
-        'cov': ['-O0', '-g', '--coverage'],
+        'cov': ['-O0', '-g', '--coverage', '-DVERIF_GCOV'],
         'fuzz': ['-O1', '-g', '-fsanitize=fuzzer-no-link,address,undefined', '-fno-sanitize-recover=all', '-fno-omit-frame-pointer'],
     }
     CC = {'fuzz': 'clang'}
@@ -130,6 +186,8 @@ class Scratch:
 
     def unit_harness(self, name, included, flavour='asan', extra_src=()):
         """Build harness/unit/<name>.c which #includes the repo modules `included`."""
+        if COV_OUT:
+            flavour = 'cov'
         out = os.path.join(self.dir, '%s-%s' % (name, flavour))
         if os.path.exists(out):
             return out
@@ -139,10 +197,19 @@ class Scratch:
                link + ['-o', out])
         r = subprocess.run(cmd, capture_output=True, text=True)
         if r.returncode != 0:
-            raise CheckError('harness %s does not build: %s' % (name, r.stderr[-3000:]))
+            # a static function the harness calls directly may have changed its signature (a harmless rewrite as far as the
+            # properties go): build without the ops on static functions, so that the public-interface ops and the process-level
+            # stages still search for a failing input; the lost tie is reported at the end of the check (lean_conclude)
+            r2 = subprocess.run(cmd[:1] + ['-DHARNESS_NO_STATICS'] + cmd[1:], capture_output=True, text=True)
+            if r2.returncode != 0:
+                raise CheckError('harness %s does not build: %s' % (name, r.stderr[-3000:]))
+            DEGRADED.append('harness %s builds only without its ops on static functions: %s' % (name, r.stderr[-1500:]))
+            log(DEGRADED[-1][:300])
         return out
 
     def binary(self, flavour='plain'):
+        if COV_OUT:
+            flavour = 'cov'
         out = os.path.join(self.dir, 'mdsort-' + flavour)
         if os.path.exists(out):
             return out
@@ -584,6 +651,8 @@ class Differential:
         self.evals += len(reqs)
         for i, r in enumerate(reqs):
             ok_h = H(r) if H else True
+            if impl[i] == 'BADOP' and DEGRADED:
+                continue              # an op on a static function that this build of the harness does not have
             if impl[i].startswith('FAULT'):
                 self.faults.append((r, impl[i], model[i]))
             elif spec[i] is not None and ok_h and impl[i] != spec[i]:
@@ -682,3 +751,7 @@ def lean_conclude(rep):
     lb = rep.lean
     if not lb['ok'] and not rep.violations:
         rep.violation({'obligation': 'Lean proof obligations', 'problems': lb['problems']}, False)
+    if DEGRADED and not rep.violations:
+        rep.violation({'obligation': 'correspondence of static functions with the model: the unit harness no longer builds with its '
+                                     'direct calls of static functions, so those functions are not tied to the model on this run; the '
+                                     'remaining stages found no failing input', 'problems': list(DEGRADED)}, False)
